@@ -290,7 +290,7 @@ impl Compiler {
         })?;
         let mut ast = RegexAst::Regex(rx);
         if let Some(d) = num.multiple_of.as_ref() {
-            ast = RegexAst::And(vec![ast, signed_multiple_of_ast(d.coef, d.exp)]);
+            ast = RegexAst::And(vec![ast, signed_multiple_of_ast(d.coef, d.exp)?]);
         }
         Ok(ast)
     }
@@ -311,7 +311,7 @@ impl Compiler {
             })?;
         let mut ast = RegexAst::Regex(rx);
         if let Some(d) = num.multiple_of.as_ref() {
-            ast = RegexAst::And(vec![ast, signed_multiple_of_ast(d.coef, d.exp)]);
+            ast = RegexAst::And(vec![ast, signed_multiple_of_ast(d.coef, d.exp)?]);
         }
         Ok(ast)
     }
@@ -1016,11 +1016,20 @@ impl Compiler {
 /// negative multiples (e.g. `-6` for `multipleOf 3`) would be rejected.
 /// Divisibility is independent of sign.
 /// https://github.com/guidance-ai/llguidance/issues/222
-fn signed_multiple_of_ast(coef: u32, exp: u32) -> RegexAst {
-    RegexAst::Concat(vec![
+fn signed_multiple_of_ast(coef: u32, exp: u32) -> Result<RegexAst> {
+    // derivre tracks `remainder * 10 + digit * 10^exp` (remainder <= coef) in a u32;
+    // larger values would wrap around and accept/reject the wrong numbers
+    let max_remainder = 10u64
+        .checked_pow(exp)
+        .and_then(|p| p.checked_mul(9))
+        .and_then(|p| p.checked_add(coef as u64 * 10));
+    if !matches!(max_remainder, Some(v) if v <= u32::MAX as u64) {
+        bail!("Value for 'multipleOf' has too many digits: {coef}e-{exp}");
+    }
+    Ok(RegexAst::Concat(vec![
         RegexAst::Regex("-?".to_string()),
         RegexAst::MultipleOf(coef, exp),
-    ])
+    ]))
 }
 
 fn always_non_empty(ast: &RegexAst) -> bool {
